@@ -1,72 +1,197 @@
 package harness
 
 import (
+	"bufio"
 	"encoding/json"
 	"flag"
 	"fmt"
 	"os"
 	"strings"
+	"time"
 
 	"verif/explore"
 )
 
-// WorkerMain is the entry point of the vcheck binary.
-func WorkerMain() {
-	spike := flag.String("spike", "", "run an ad-hoc exploration (debug)")
-	flag.Parse()
-	if *spike != "" {
-		runSpike(*spike)
-		return
-	}
-	fmt.Fprintln(os.Stderr, "nothing to do")
+type jobInfo struct {
+	I    int    `json:"i"`
+	Name string `json:"name"`
+	Cost int    `json:"cost"`
 }
 
-func runSpike(arg string) {
-	var backlog, emit, k, e, cc, variant int
-	cause := "close"
-	cacheOn := true
-	for _, kv := range strings.Split(arg, ",") {
-		p := strings.SplitN(kv, "=", 2)
-		if len(p) != 2 {
-			continue
+type propMeta struct {
+	ID          string   `json:"id"`
+	Rule        string   `json:"rule"`
+	Assumptions []string `json:"assumptions"`
+	Props       []string `json:"props,omitempty"`
+}
+
+// WorkerMain is the entry point of the vcheck binary.
+func WorkerMain() {
+	prop := flag.String("prop", "", "property id")
+	tier := flag.String("tier", "quick", "quick | thorough")
+	list := flag.Bool("list", false, "list jobs as JSON")
+	meta := flag.Bool("meta", false, "print property metadata")
+	serve := flag.Bool("serve", false, "read job indices from stdin, print one RESULT line per job")
+	one := flag.Int("job", -1, "run one job and print its result")
+	replay := flag.String("replay", "", "replay a violation file")
+	seed := flag.Int64("seed", 0, "VERIF_SEED (only permutes visiting order)")
+	flag.Parse()
+
+	if *replay != "" {
+		os.Exit(replayFile(*replay))
+	}
+	if *meta && *prop == "" {
+		b, _ := json.Marshal(propMeta{Props: PropIDs()})
+		fmt.Println(string(b))
+		return
+	}
+	p := registry[*prop]
+	if p == nil {
+		fmt.Fprintf(os.Stderr, "unknown property %q (have %v)\n", *prop, PropIDs())
+		os.Exit(2)
+	}
+	if *meta {
+		b, _ := json.Marshal(propMeta{ID: p.ID, Rule: p.Rule, Assumptions: p.Assumptions})
+		fmt.Println(string(b))
+		return
+	}
+	jobs := p.Jobs(*tier)
+	if *list {
+		var out []jobInfo
+		for i, j := range jobs {
+			out = append(out, jobInfo{i, j.Name, j.Cost})
 		}
-		switch p[0] {
-		case "backlog":
-			fmt.Sscan(p[1], &backlog)
-		case "emit":
-			fmt.Sscan(p[1], &emit)
-		case "k":
-			fmt.Sscan(p[1], &k)
-		case "e":
-			fmt.Sscan(p[1], &e)
-		case "cap":
-			fmt.Sscan(p[1], &cc)
-		case "v":
-			fmt.Sscan(p[1], &variant)
-		case "cause":
-			cause = p[1]
-		case "cache":
-			cacheOn = p[1] == "1"
+		b, _ := json.Marshal(out)
+		fmt.Println(string(b))
+		return
+	}
+	runJob := func(i int, deadline time.Time) {
+		start := time.Now()
+		var r *JobResult
+		func() {
+			defer func() {
+				if e := recover(); e != nil {
+					r = &JobResult{Job: jobs[i].Name, Error: fmt.Sprint("harness panic: ", e)}
+				}
+			}()
+			r = jobs[i].Run(&JobCtx{Tier: *tier, Deadline: deadline, Seed: *seed})
+		}()
+		if r.WallS == 0 {
+			r.WallS = time.Since(start).Seconds()
+		}
+		for k := range r.Violations {
+			r.Violations[k].Property = p.ID
+			r.Violations[k].Tier = *tier
+			if r.Violations[k].Job == "" {
+				r.Violations[k].Job = jobs[i].Name
+			}
+		}
+		b, err := json.Marshal(r)
+		if err != nil {
+			b, _ = json.Marshal(&JobResult{Job: jobs[i].Name, Error: "marshal: " + err.Error()})
+		}
+		fmt.Printf("RESULT %d %s\n", i, b)
+	}
+	if *one >= 0 {
+		runJob(*one, time.Time{})
+		return
+	}
+	if *serve {
+		sc := bufio.NewScanner(os.Stdin)
+		for sc.Scan() {
+			var i int
+			var dl int64
+			if n, _ := fmt.Sscan(sc.Text(), &i, &dl); n < 1 {
+				continue
+			}
+			var deadline time.Time
+			if dl > 0 {
+				deadline = time.Unix(dl, 0)
+			}
+			if i < 0 || i >= len(jobs) {
+				fmt.Printf("RESULT %d {\"error\":\"no such job\"}\n", i)
+				continue
+			}
+			runJob(i, deadline)
+		}
+		return
+	}
+	fmt.Fprintln(os.Stderr, "nothing to do (use -list, -serve, -job or -replay)")
+	os.Exit(2)
+}
+
+// replayFile re-executes one recorded violation without any search.
+func replayFile(path string) int {
+	b, err := os.ReadFile(path)
+	if err != nil {
+		fmt.Fprintln(os.Stderr, err)
+		return 2
+	}
+	var v Violation
+	if err := json.Unmarshal(b, &v); err != nil {
+		fmt.Fprintln(os.Stderr, err)
+		return 2
+	}
+	p := registry[v.Property]
+	if p == nil {
+		fmt.Fprintln(os.Stderr, "unknown property", v.Property)
+		return 2
+	}
+	var job *Job
+	for _, t := range []string{v.Tier, "quick", "thorough"} {
+		jobs := p.Jobs(t)
+		for i := range jobs {
+			if jobs[i].Name == v.Job {
+				job = &jobs[i]
+				break
+			}
+		}
+		if job != nil {
+			break
 		}
 	}
-	if variant == 0 {
-		variant = 1
+	if job == nil {
+		fmt.Fprintln(os.Stderr, "job not found:", v.Job)
+		return 2
 	}
-	sc := c07Scenario(c07Params{Backlog: backlog, Cause: cause, Emit: emit}, cc)
-	if os.Getenv("TRACE") != "" {
-		o, _ := explore.Replay(sc, variant, nil, nil, false, true)
+	if v.Sched != nil && job.Scenario != nil {
+		o, bad := explore.Replay(job.Scenario, v.Sched.Variant, v.Sched.Choices, v.Sched.Widths, v.Sched.ClockAlt, true)
 		for _, l := range o.Trace {
 			fmt.Println(l)
 		}
-		fmt.Println(o.Kind, o.BlockedSig())
-		return
+		fmt.Println("---- observations")
+		for _, r := range o.Recs {
+			fmt.Printf("%5d %-24s %s: %s\n", r.Step, r.Task, r.Log, r.Data)
+		}
+		for i, c := range o.Conns {
+			fmt.Printf("---- transcript of connection %d\n%s", i, strings.ReplaceAll(c.Transcript(), "\r\n", "\\r\\n\n"))
+		}
+		fmt.Println("---- outcome:", o.Kind, "|", o.BlockedSig())
+		if o.Crash != nil {
+			fmt.Println(o.Crash.Value)
+			fmt.Println(o.Crash.Stack)
+		}
+		if bad != "" {
+			fmt.Println("REPLAY DIVERGED:", bad)
+			return 3
+		}
+		fs := job.Scenario.Check(o)
+		for _, f := range fs {
+			fmt.Printf("FINDING oracle=%s %s\n", f.Oracle, f.Msg)
+			if f.Oracle == v.Oracle {
+				fmt.Println("REPRODUCED")
+				return 1
+			}
+		}
+		fmt.Println("NOT REPRODUCED")
+		return 0
 	}
-	res := explore.Explore(sc, variant, explore.Budget{K: k, E: e}, explore.Config{Cache: cacheOn, DetCheck: 20})
-	vs := res.Violations
-	res.Violations = nil
-	b, _ := json.Marshal(res)
-	fmt.Println(string(b))
-	for _, v := range vs {
-		fmt.Printf("VIOL oracle=%s devs=%d replayed=%d msg=%s detail=%s\n", v.Oracle, v.Devs, v.Replayed, v.Msg, v.Detail)
+	if replayInput != nil {
+		return replayInput(&v)
 	}
+	fmt.Println("violation has no schedule; input:", v.Input)
+	return 0
 }
+
+// replayInput is set by enumeration-type harnesses to re-check a single input.
+var replayInput func(v *Violation) int
